@@ -87,6 +87,10 @@ Fixpoint all_some {A} (l : list (option A)) : option (list A) :=
 
 Definition nseq (k : nat) : list N := map N.of_nat (seq 0 k).
 
+(* the Go type in which an index is computed (Consts.v, read from the source): 0 = 64-bit int, no wrap-around;
+   w > 0 = an unsigned type that wraps at w *)
+Definition wrap_at (w x : N) : N := if w =? 0 then x else x mod w.
+
 (* ---------- V1: ring ---------- *)
 (* sortedNodes[i % len(sortedNodes)]; len = 0 is Go's integer-divide-by-zero panic *)
 Definition ring_at (ring : list name) (i : N) : option name :=
@@ -94,7 +98,7 @@ Definition ring_at (ring : list name) (i : N) : option name :=
   if n =? 0 then None else nth_error ring (N.to_nat (i mod n)).
 
 Definition v1_list (h : N) (ring : list name) (r : nat) (i : N) : option (list name) :=
-  all_some (map (fun j => ring_at ring (h + i + j)) (nseq r)).
+  all_some (map (fun j => ring_at ring (wrap_at v1_index_wrap (h + i + j))) (nseq r)).
 
 Definition fill_v1 (h : N) (p r : nat) (ring : list name) : outcome layout :=
   match all_some (map (v1_list h ring r) (nseq p)) with
@@ -122,7 +126,7 @@ Definition add_rep (pid : N) (l : nload) : nload := set_rep (nl_rep l ++ [pid]) 
 Fixpoint init_loads (h n i : N) (ring : list name) : loads :=
   match ring with
   | [] => []
-  | nm :: rest => mkload nm ((i + h) mod n) [] [] :: init_loads h n (i + 1) rest
+  | nm :: rest => mkload nm (wrap_at v2_index_wrap (i + h) mod n) [] [] :: init_loads h n (i + 1) rest
   end.
 
 (* counting the previous layout into the load maps (only names that are still alive have an entry) *)
